@@ -1117,7 +1117,7 @@ CL_MAX_ITER = 80
 
 def _cl_truncated(t):
     """the recorder's own iteration cap (a slowly advancing run): a truncation, not an error"""
-    return t.error is not None and t.error[0] == "RuntimeError" and len(t.iters) >= CL_MAX_ITER
+    return t.error is not None and t.error[0] == "_Cap" and len(t.iters) >= CL_MAX_ITER
 
 
 def _cl_record(cfg, seed):
